@@ -180,6 +180,7 @@ func runWorker(scs []*Scenario, base uint64, from, step int, tc tierCfg, wantHas
 	fps := map[uint64]struct{}{}
 	cells := map[string]struct{}{}
 	deadline := start.Add(time.Duration(tc.MaxWall) * time.Second)
+	var progFile *os.File
 	for i := from; i < tc.Runs; i += step {
 		if time.Now().After(deadline) {
 			break
@@ -187,9 +188,15 @@ func runWorker(scs []*Scenario, base uint64, from, step int, tc tierCfg, wantHas
 		sc, cell := pickScenario(scs, i)
 		// progress marker: if the process dies inside this run (unrecoverable runtime error in
 		// the code under test), the master attributes the death to it
-		progTmp := filepath.Join(scratch, fmt.Sprintf("prog-%d.tmp", from%step))
-		if os.WriteFile(progTmp, []byte(fmt.Sprintf("%d %d %s %d", i, seedOf(base, i), sc.Name, cell)), 0644) == nil {
-			os.Rename(progTmp, filepath.Join(scratch, fmt.Sprintf("prog-%d.txt", from%step))) // atomic: a death never leaves a torn marker
+		// one small fixed-size pwrite into a file kept open: not torn by a dying process, and no
+		// directory operations (16 workers creating/renaming files in one directory serialise in
+		// the kernel and dominated the run time)
+		if progFile == nil {
+			progFile, _ = os.OpenFile(filepath.Join(scratch, fmt.Sprintf("prog-%d.txt", from%step)), os.O_CREATE|os.O_WRONLY|os.O_TRUNC, 0644)
+		}
+		if progFile != nil {
+			rec := fmt.Sprintf("%-127s\n", fmt.Sprintf("%d %d %s %d", i, seedOf(base, i), sc.Name, cell))
+			progFile.WriteAt([]byte(rec), 0)
 		}
 		rep := runOne(sc, seedOf(base, i), nil, false, cell)
 		sum.Runs++
